@@ -404,7 +404,7 @@ func (s *Sim) park(id, point, tag string) {
 // blocking: under a virtual clock such a loop would starve time itself, with the escalation
 // the clock moves on, the loop's own deadline arrives and the oracles see what it returns.
 const (
-	spinAfterDefault = 30000
+	spinAfterDefault = 200000
 	spinStep         = 512
 )
 
